@@ -48,6 +48,17 @@ def doJudge (a : Json) : Except String Json := do
   let v := judgeGo slack qps burst [] {} obs
   pure <| J.obj [("upper", J.bool v.upper), ("lower", J.bool v.lower), ("resize", J.bool v.resize)]
 
+/-- `C06.seg {qps, burst, slack, prev, events}`: the two judges the theorems `c06_upper_judge` / `c06_lower_judge` are
+    about, on one stretch of calls under constant `(qps, burst)`: `upperOK` on all its windows, `lowerOK` counted from
+    `prev` (0 = the creation of the bucket). -/
+def doSeg (a : Json) : Except String Json := do
+  let p := paramsOf (← J.getNat a "qps") (← J.getNat a "burst")
+  let slack ← J.getNat a "slack"
+  let prev ← getBig a "prev"
+  let ev ← (← J.getArr a "events").toList.mapM fun j => do
+    pure (((← getBig j "t") : Rat), ← J.getBool j "ok")
+  pure <| J.obj [("upper", J.bool (upperOK p ev)), ("lower", J.bool (lowerOK p slack (prev : Rat) ev))]
+
 /-- `C06.window {qps, burst, t0, t1, count}`: is `count ≤ ⌈burst + qps·(t1−t0)⌉ (+⌊qps/1e9⌋)`; also the bound. -/
 def doWindow (a : Json) : Except String Json := do
   let p := paramsOf (← J.getNat a "qps") (← J.getNat a "burst")
@@ -141,6 +152,7 @@ def handle (m : String) (a : Json) : Option (Except String Json) :=
   | "judge" => some (doJudge a)
   | "window" => some (doWindow a)
   | "owed" => some (doOwed a)
+  | "seg" => some (doSeg a)
   | "hist" => some (doHist a)
   | "inforce" => some (doInForce a)
   | _ => none
